@@ -286,6 +286,10 @@ func findNextNodeAfterComment(file *ast.File, commentPos token.Pos) token.Pos {
 	var nextEnd = token.NoPos
 	// End of the innermost node that contains the comment (a block, a literal, a call...)
 	var enclosingEnd = decl.End()
+	// Start of that innermost node, and start of the last node that ended before the comment
+	var enclosingPos = decl.Pos()
+	var endedBeforePos = token.NoPos
+	var nextIsClause = false
 
 	ast.Inspect(decl, func(n ast.Node) bool {
 		if n == nil {
@@ -296,6 +300,10 @@ func findNextNodeAfterComment(file *ast.File, commentPos token.Pos) token.Pos {
 		if n.Pos() <= commentPos {
 			if n.End() > commentPos && n.End() < enclosingEnd {
 				enclosingEnd = n.End()
+				enclosingPos = n.Pos()
+			}
+			if n.End() <= commentPos {
+				endedBeforePos = n.Pos()
 			}
 			return true
 		}
@@ -304,6 +312,10 @@ func findNextNodeAfterComment(file *ast.File, commentPos token.Pos) token.Pos {
 		if nextPos == token.NoPos || n.Pos() < nextPos {
 			nextPos = n.Pos()
 			nextEnd = n.End()
+			switch n.(type) {
+			case *ast.CaseClause, *ast.CommClause:
+				nextIsClause = true
+			}
 			// Stop searching once we found the first node
 			return false
 		}
@@ -315,6 +327,12 @@ func findNextNodeAfterComment(file *ast.File, commentPos token.Pos) token.Pos {
 	// node belongs to the surroundings (the next literal element, the else branch, a later
 	// statement of the outer body) and must not be covered
 	if nextPos != token.NoPos && nextPos >= enclosingEnd {
+		return token.NoPos
+	}
+
+	// A case clause has no closing token: a comment after the last statement of a clause is
+	// still the last thing in that clause's body, the next clause is not its following statement
+	if nextIsClause && endedBeforePos != token.NoPos && endedBeforePos > enclosingPos {
 		return token.NoPos
 	}
 
